@@ -48,7 +48,7 @@ DESCRIPTION = {
     ],
     "required_probes": {
         "quick": ["drop_after_wiring", "drop_removed", "rename_determined", "rename_loose", "selfloop", "recreate_after_drop",
-                  "reorder_checked", "duplicate_checked", "multi_pair_rename", "sql_path", "shared_runner_threads"],
+                  "reorder_checked", "duplicate_checked", "multi_pair_rename", "sql_path", "shared_runner_threads", "sql_column_bearing_history", "constant_write_beside_ambiguous_column"],
         "thorough": ["drop_after_wiring", "drop_removed", "rename_determined", "rename_loose", "selfloop", "recreate_after_drop",
                      "reorder_checked", "duplicate_checked", "multi_pair_rename", "sql_path"],
     },
@@ -364,9 +364,20 @@ def _result(spec, model, viol, states, note=None, extra=None):
 # SQL path
 
 
-def render(op, g, dialect_multi="mysql"):
+def render(op, g, dialect_multi="mysql", columns=False):
     if op[0] == "rw":
         R, w = op[1], op[2]
+        if R and w is not None and columns and g.random() < 0.75:
+            # column-bearing renderings (histories without DROP/RENAME only): every table t has columns k and v_t.
+            # An unqualified v_r read from a join has several candidate owners; another statement that declares v_r
+            # on r (or a metadata provider that knows r) lets the script-level pass resolve it.  None of this may
+            # touch the table-level summary, which is a function of the per-statement reads and writes alone.
+            frm = R[0] + "".join(f" JOIN {r} ON {R[0]}.k = {r}.k" for r in R[1:])
+            r = g.choice(R)
+            kind = g.choice(["INSERT INTO {w} SELECT v_{r} FROM {f}", "INSERT INTO {w} SELECT v_{r} FROM {f}", "INSERT INTO {w} SELECT k, v_{r} FROM {f}",
+                             "INSERT INTO {w} (k, v_{w}) SELECT {r0}.k, {r0}.v_{r0} FROM {f}", "CREATE TABLE {w} AS SELECT {r0}.k AS k, {r0}.v_{r0} AS v_{w} FROM {f}",
+                             "INSERT INTO {w} (v_{w}) SELECT v_{r} FROM {f}"])
+            return kind.format(w=w, f=frm, r0=R[0], r=r)
         if R and w is not None:
             frm = R[0] + "".join(f" JOIN {r} ON {R[0]}.k = {r}.k" for r in R[1:])
             kind = g.choice(["INSERT INTO {w} SELECT * FROM {f}", "CREATE TABLE {w} AS SELECT * FROM {f}", "INSERT INTO {w} SELECT {r0}.k FROM {f}"])
@@ -400,7 +411,7 @@ def check_history_sql(spec) -> dict:
     for op in ops:
         k = json.dumps(op)
         if k not in rendered:
-            rendered[k] = render(op, g)
+            rendered[k] = render(op, g, columns=bool(spec.get("columns")) and all(o[0] == "rw" for o in ops))
         stmts.append(rendered[k])
     universe = {q(t) for t in spec["universe"]}
     facts = []
@@ -422,8 +433,18 @@ def check_history_sql(spec) -> dict:
         facts.clear()
         tapmod.set_tap(tap)
         try:
-            runner = LineageRunner(";\n".join(stmts[:i]), dialect=dialect)
+            kw = {}
+            if spec.get("provider_meta"):
+                from sqllineage.core.metadata.dummy import DummyMetaDataProvider
+
+                kw["metadata_provider"] = DummyMetaDataProvider({q(t): list(c) for t, c in spec["provider_meta"].items()})
+                model.probe("sql_with_metadata_provider")
+            runner = LineageRunner(";\n".join(stmts[:i]), dialect=dialect, **kw)
             obs = observe_runner(runner)
+            if spec.get("columns") and i == len(stmts):
+                model.probe("sql_column_bearing_history")
+                if any("VALUES" in s_ for s_ in stmts) and any(" JOIN " in s_ and " SELECT v_" in s_ for s_ in stmts):
+                    model.probe("constant_write_beside_ambiguous_column")
             err = None
         except Exception as e:
             obs, err = None, e
@@ -665,6 +686,24 @@ def gen(seed, path="holder") -> dict:
             "shared_runner": g.random() < 0.7, "insertion_sweep": g.random() < 0.12}
 
 
+def gen_columns(seed) -> dict:
+    """SQL path, no DROP/RENAME, column-bearing renderings over 4-5 tables, sometimes with a metadata provider."""
+    g = stream(seed, "gen-columns")
+    universe = ["a", "b", "c", "d"] + (["e"] if g.random() < 0.4 else [])
+    ops = []
+    for _ in range(g.choice([2, 3, 3, 4, 4, 5])):
+        if ops and g.random() < 0.12:
+            ops.append(json.loads(json.dumps(g.choice(ops))))
+            continue
+        k = g.choice([0, 0, 1, 2, 2, 2, 3])
+        R = g.sample(universe, k)
+        w = g.choice(universe) if (g.random() < 0.85 or not R) else None
+        ops.append(["rw", R, w])
+    meta = {t: ["k", f"v_{t}"] for t in universe if g.random() < 0.5} if g.random() < 0.5 else None
+    return {"seed": seed, "path": "sql", "ops": ops, "universe": sorted(set(universe) | {"e", "f"}), "share_holders": False, "columns": True,
+            "provider_meta": meta or None, "shared_runner": g.random() < 0.2, "insertion_sweep": False}
+
+
 def plan(seed: int, tier: str) -> list[dict]:
     master = stream(seed, "c03-plan")
     units = []
@@ -678,6 +717,10 @@ def plan(seed: int, tier: str) -> list[dict]:
     for b in range(n_sql // sb):
         hs = [0, 1, 2, 3][b % 4]
         units.append({"key": {"hash_seed": hs}, "specs": [gen(master.randrange(2 ** 48), "sql") for _ in range(sb)], "wall_s": 300.0})
+    n_col = {"quick": 800, "thorough": 16_000}[tier]
+    for b in range(n_col // sb):
+        hs = [0, 1, 2, 3][b % 4]
+        units.append({"key": {"hash_seed": hs}, "specs": [gen_columns(master.randrange(2 ** 48)) for _ in range(sb)], "wall_s": 300.0})
     # interleave the two paths so that a budget cut starves neither
     sql_u = [u for u in units if u["specs"][0]["path"] == "sql"]
     hol_u = [u for u in units if u["specs"][0]["path"] != "sql"]
